@@ -63,3 +63,27 @@ def load_table(name, index):
     doc = Document(str(samples_dir() / name))
     t = doc.body.get_tables()[index]
     return Element.from_tag(t.serialize())
+
+
+def decorate(data: bytes) -> bytes:
+    """The same package with XML comments and processing instructions added around and inside the root element of
+    content.xml, styles.xml, meta.xml and settings.xml (valid XML, valid ODF: consumers ignore them)."""
+    import io
+    import re
+    import zipfile
+
+    src = zipfile.ZipFile(io.BytesIO(data))
+    out = io.BytesIO()
+    with zipfile.ZipFile(out, "w") as z:
+        for info in src.infolist():
+            raw = src.read(info.filename)
+            if info.filename in ("content.xml", "styles.xml", "meta.xml", "settings.xml"):
+                m = re.match(rb"\s*(<\?xml[^>]*\?>)?\s*", raw)
+                head, rest = raw[:m.end()], raw[m.end():]
+                # after the root start tag: a comment and a PI as first children
+                end_of_start = rest.index(b">") + 1
+                if rest[end_of_start - 2:end_of_start] != b"/>":
+                    rest = rest[:end_of_start] + b"<!--verif inside--><?verif-pi inside?>" + rest[end_of_start:]
+                raw = head + b"<!--verif before root--><?verif-pi before?>" + rest.rstrip() + b"<!--verif after root-->"
+            z.writestr(info, raw)
+    return out.getvalue()
